@@ -702,9 +702,29 @@ def rule_H(toks, au, h, lockflags=False, fname=None):
                         new.append(tt)
                         m += 1
                     if flag:
-                        if not (new and new[-1].kind == "p" and new[-1].text in (";", "}")):
-                            raise Undecided("rule L: guarded block ends in a trailing expression")
-                        new += _ghost(f"proof {{ vx_held_{F} = 0int; }}", " ")
+                        rel = _ghost(f"proof {{ vx_held_{F} = 0int; }}", " ")
+                        if new and new[-1].kind == "p" and new[-1].text in (";", "}"):
+                            new += rel
+                        else:
+                            # block ends in a trailing expression: release before it if it is simple (no blocks, no threaded calls)
+                            q = len(new)
+                            depth = 0
+                            while q > 0:
+                                tq = new[q - 1]
+                                if tq.kind == "p" and tq.text in (")", "]"):
+                                    depth += 1
+                                elif tq.kind == "p" and tq.text in ("(", "["):
+                                    depth -= 1
+                                elif depth == 0 and tq.kind == "p" and tq.text in (";", "}", "{"):
+                                    break
+                                elif tq.kind == "spec":
+                                    break
+                                q -= 1
+                            tail = new[q:]
+                            if any(x.kind == "p" and x.text in ("{", "}") for x in tail) or any(
+                                    is_id(tail[z], "self") and z + 3 < len(tail) and tail[z + 2].text in h.thread for z in range(len(tail))):
+                                raise Undecided("rule L: guarded block ends in a complex trailing expression")
+                            new[q:q] = rel
                     toks[i:scope_end] = new
                     continue
         i += 1
@@ -815,9 +835,8 @@ def _stmt_start(toks, k):
             if t.text in (")", "]"):
                 depth += 1
             elif t.text in ("(", "["):
-                if depth == 0:
-                    raise Undecided("rule L: call in expression position that cannot take a preceding proof block")
-                depth -= 1
+                if depth > 0:
+                    depth -= 1
             elif depth == 0 and t.text in (";", "{", "}"):
                 return k
             elif depth == 0 and t.text == ">" and k >= 2 and is_p(toks[k - 2], "=") and t.ws == "":
